@@ -1,6 +1,6 @@
 (** ImportProofs.v — lemmas about ImportDefs.v (C07). *)
 From Coq Require Import String Ascii List Bool Arith Lia.
-From LC Require Import ImportDefs.
+From LC Require Import ImportDefs ImportSpec.
 Import ListNotations.
 Local Open Scope string_scope.
 Local Open Scope list_scope.
@@ -121,8 +121,9 @@ Lemma fis_ok : forall strict fs st o sid url st1 errs sm,
   fetch_import_source strict fs st o sid url = FMok st1 errs sm ->
   lib_get (lib st1) (mk_key url) = Some sm /\
   issues_rev st1 = issues_rev st /\
-  (lib st1 = lib st \/ (lib st1 = (mk_key url, sm) :: lib st /\ fs_get fs (mk_key url) = Parsed errs sm
-                        /\ lib_get (lib st) (mk_key url) = None)).
+  ((lib st1 = lib st /\ errs = []) \/
+   (lib st1 = (mk_key url, sm) :: lib st /\ fs_get fs (mk_key url) = Parsed errs sm
+    /\ lib_get (lib st) (mk_key url) = None)).
 Proof.
   intros strict fs st o sid url st1 errs sm. unfold fetch_import_source, linked_model.
   destruct (has_link st o sid) eqn:Hl.
@@ -138,13 +139,13 @@ Qed.
 
 Lemma fis_fail : forall strict fs st o sid url st1,
   fetch_import_source strict fs st o sid url = FMfail st1 ->
-  lib st1 = lib st /\ links st1 = links st /\
+  lib st1 = lib st /\ links st1 = links st /\ fs_model fs (mk_key url) = None /\
   exists r, issues_rev st1 = {| i_rule := r; i_item := ItImport o url |} :: issues_rev st.
 Proof.
   intros strict fs st o sid url st1. unfold fetch_import_source.
   destruct (linked_model st o sid url); [discriminate|].
   unfold fetch_model. destruct (lib_get (lib st) (mk_key url)); [discriminate|].
-  destruct (fs_get fs (mk_key url)); intros E; inversion E; subst; cbn; eauto.
+  unfold fs_model. destruct (fs_get fs (mk_key url)); intros E; inversion E; subst; cbn; eauto 7.
 Qed.
 
 Lemma check_cycle_false_notin : forall st m0 hist h,
@@ -197,10 +198,10 @@ Section Total.
     intros st o sid url st1 errs sm Hg E. destruct (fis_ok _ _ _ _ _ _ _ _ _ E) as (Hget & _ & Hl).
     assert (Hk : In (mk_key url) K).
     { destruct Hl as [Hl|(Hl & Hf & _)].
-      - apply Hg. unfold lib_keys. rewrite <- Hl. eapply lib_get_in. exact Hget.
+      - destruct Hl as [Hl _]. apply Hg. unfold lib_keys. rewrite <- Hl. eapply lib_get_in. exact Hget.
       - apply HfsK. apply fs_get_in. rewrite Hf. discriminate. }
     split; [|exact Hk].
-    destruct Hl as [Hl|(Hl & _)]; unfold good, lib_keys in *; rewrite Hl; [exact Hg|].
+    destruct Hl as [[Hl _]|(Hl & _)]; unfold good, lib_keys in *; rewrite Hl; [exact Hg|].
     cbn. intros x [Hx|Hx]; [subst; exact Hk | apply Hg; exact Hx].
   Qed.
 
@@ -376,7 +377,7 @@ Qed.
 Lemma fis_fail_ext : forall strict fs st o sid url st1,
   fetch_import_source strict fs st o sid url = FMfail st1 -> ext st st1 false.
 Proof.
-  intros strict fs st o sid url st1 E. destruct (fis_fail _ _ _ _ _ _ _ E) as (_ & _ & r & Hi).
+  intros strict fs st o sid url st1 E. destruct (fis_fail _ _ _ _ _ _ _ E) as (_ & _ & _ & r & Hi).
   eexists [_]. split; [exact Hi | discriminate].
 Qed.
 
@@ -493,3 +494,173 @@ Proof.
     - exists i. split; [exact Hi|]. right. exists c, s1, s2. auto. }
   split; [|exact X]. destruct X as (i & Hi & _). intros Hnil. rewrite Hnil in Hi. exact Hi.
 Qed.
+
+(* ------------------------------------------------------------------------------------------ operational = stateless *)
+
+(* the library caches the file system; it only grows during a resolution *)
+Definition cons (fs : fsys) (st : state) : Prop :=
+  forall k m, lib_get (lib st) k = Some m -> fs_model fs k = Some m.
+Definition mono (st st' : state) : Prop :=
+  forall k m, lib_get (lib st) k = Some m -> lib_get (lib st') k = Some m.
+Definition owner_ok (st : state) (o : owner) : Prop :=
+  match o with None => True | Some k => exists m, lib_get (lib st) k = Some m end.
+Definition hist_ok (st : state) (hist : list epoch) : Prop := forall e, In e hist -> owner_ok st (e_srcm e).
+
+Lemma mono_refl : forall st, mono st st.
+Proof. intros st k m E. exact E. Qed.
+Lemma mono_trans : forall a b c, mono a b -> mono b c -> mono a c.
+Proof. intros a b c H1 H2 k m E. apply H2, H1, E. Qed.
+Lemma mono_same_lib : forall st st', lib st' = lib st -> mono st st'.
+Proof. intros st st' E k m H. rewrite E. exact H. Qed.
+Lemma owner_ok_mono : forall st st' o, mono st st' -> owner_ok st o -> owner_ok st' o.
+Proof. intros st st' [k|] Hm H; [|exact I]. destruct H as (m & E). exists m. apply Hm, E. Qed.
+Lemma hist_ok_mono : forall st st' h, mono st st' -> hist_ok st h -> hist_ok st' h.
+Proof. intros st st' h Hm H e He. eapply owner_ok_mono; [exact Hm | apply H, He]. Qed.
+Lemma cons_same_lib : forall fs st st', lib st' = lib st -> cons fs st -> cons fs st'.
+Proof. intros fs st st' E H k m G. rewrite E in G. apply H, G. Qed.
+
+Lemma fis_ok_cons : forall strict fs st o sid url st1 errs sm,
+  cons fs st -> fetch_import_source strict fs st o sid url = FMok st1 errs sm ->
+  cons fs st1 /\ mono st st1 /\ fs_model fs (mk_key url) = Some sm /\
+  lib_get (lib st1) (mk_key url) = Some sm /\ issues_rev st1 = issues_rev st /\
+  (errs = [] \/ fs_get fs (mk_key url) = Parsed errs sm).
+Proof.
+  intros strict fs st o sid url st1 errs sm Hc E.
+  destruct (fis_ok _ _ _ _ _ _ _ _ _ E) as (Hget & Hi & Hl).
+  destruct Hl as [[Hl He]|(Hl & Hf & Hn)].
+  - assert (Hc1 : cons fs st1) by (eapply cons_same_lib; eauto).
+    repeat split; auto using mono_same_lib.
+  - assert (Hm : fs_model fs (mk_key url) = Some sm) by (unfold fs_model; rewrite Hf; reflexivity).
+    assert (Hc1 : cons fs st1).
+    { intros k m G. rewrite Hl in G. cbn [lib_get] in G. destruct (String.eqb (mk_key url) k) eqn:Ek.
+      - apply String.eqb_eq in Ek. subst k. inversion G; subst. exact Hm.
+      - apply Hc, G. }
+    assert (Hmo : mono st st1).
+    { intros k m G. rewrite Hl. cbn [lib_get]. destruct (String.eqb (mk_key url) k) eqn:Ek; [|exact G].
+      apply String.eqb_eq in Ek. subst k. rewrite Hn in G. discriminate. }
+    repeat split; auto.
+Qed.
+
+Lemma check_cycle_cycs : forall fs st m0 hist h k sm,
+  cons fs st -> hist_ok st hist -> e_dstm h = Some k -> lib_get (lib st) k = Some sm ->
+  check_cycle st m0 hist h = cycs fs m0 hist h.
+Proof.
+  intros fs st m0 hist h k sm Hc Hh Hd Hk. unfold check_cycle, cycs. rewrite Hd, Hk, (Hc _ _ Hk).
+  induction hist as [|e r IH]; [reflexivity|]. cbn [existsb].
+  rewrite IH by (intros e' He'; apply Hh; right; exact He'). f_equal. f_equal. f_equal.
+  pose proof (Hh e (or_introl eq_refl)) as Ho. unfold content, fcontent.
+  destruct (e_srcm e) as [k'|]; [|reflexivity]. destruct Ho as (m & Em). rewrite Em, (Hc _ _ Em). reflexivity.
+Qed.
+
+Lemma all_ok_spec {A : Type} (P : state -> Prop) (Q : A -> Prop) (step : state -> A -> res (bool * state)) (l : list A) :
+  (forall a x b x', In a l -> P x -> step x a = Ok (b, x') ->
+                    P x' /\ mono x x' /\ (b = true -> Q a) /\ (b = false -> ~ Q a)) ->
+  forall x b x', P x -> all_ok step l x = Ok (b, x') ->
+                 P x' /\ mono x x' /\ (b = true -> forall a, In a l -> Q a) /\
+                 (b = false -> exists a, In a l /\ ~ Q a).
+Proof.
+  induction l as [|a r IH]; intros Hs x b x' Hx E; cbn [all_ok] in E.
+  - inversion E; subst. repeat split; auto using mono_refl; [intros _ a []|discriminate].
+  - destruct (step x a) as [[b1 x1]| |] eqn:E1; try discriminate.
+    destruct (Hs a x b1 x1 (or_introl eq_refl) Hx E1) as (Hx1 & Hm1 & Ht & Hf).
+    destruct b1.
+    + destruct (IH (fun a' y b' y' Ha' => Hs a' y b' y' (or_intror Ha')) x1 b x' Hx1 E) as (Hx' & Hm' & Ht' & Hf').
+      repeat split; auto.
+      * eapply mono_trans; eauto.
+      * intros Hb a' [->|Ha']; auto.
+      * intros Hb. destruct (Hf' Hb) as (a' & Ha' & Hq). exists a'. split; [right; exact Ha' | exact Hq].
+    + inversion E; subst. repeat split; auto; [discriminate|]. intros _. exists a. split; [left; reflexivity|auto].
+Qed.
+
+Section Spec.
+  Variable fs : fsys.
+  Variable strict : bool.
+  Variable m0 : model.
+  Hypothesis Hnoerr : NoErrs fs.
+
+  Definition sinv (hist : list epoch) (o : owner) (st : state) : Prop :=
+    cons fs st /\ hist_ok st hist /\ owner_ok st o.
+
+  Lemma sinv_mono : forall hist o st st', cons fs st' -> mono st st' -> sinv hist o st -> sinv hist o st'.
+  Proof.
+    intros hist o st st' Hc Hm (_ & Hh & Ho). repeat split; auto; [eapply hist_ok_mono|eapply owner_ok_mono]; eauto.
+  Qed.
+
+  Lemma sinv_add_issue : forall hist o st r it, sinv hist o st -> sinv hist o (add_issue st r it).
+  Proof. intros hist o st r it H. exact H. Qed.
+
+  (* outcome of one fetchUnits call, in terms of the file system only *)
+  Definition units_outcome (f : state -> owner -> list epoch -> units -> res (bool * state)) : Prop :=
+    forall st o hist u b st', sinv hist o st -> f st o hist u = Ok (b, st') ->
+      cons fs st' /\ mono st st' /\ (b = true -> FU fs m0 o hist u) /\ (b = false -> ~ FU fs m0 o hist u).
+
+  Lemma fis_errs_nil : forall st o sid url st1 errs sm,
+    fetch_import_source strict fs st o sid url = FMok st1 errs sm -> errs = [].
+  Proof.
+    intros st o sid url st1 errs sm E. destruct (fis_ok _ _ _ _ _ _ _ _ _ E) as (_ & _ & [[_ H]|(_ & H & _)]); [exact H|].
+    eapply Hnoerr. exact H.
+  Qed.
+
+  Lemma fetch_units_spec : forall fuel, units_outcome (fetch_units fuel strict fs m0).
+  Proof.
+    induction fuel as [|f IH]; intros st o hist u b st' Hinv E;
+      destruct u as [n refs|n sid url ref]; cbn [fetch_units] in E; try discriminate;
+      try (inversion E; subst; destruct Hinv as (Hc & _); repeat split; auto using mono_refl;
+           [intros _; constructor | discriminate]).
+    unfold fetch_units_body in E.
+    destruct Hinv as (Hc & Hh & Ho).
+    destruct (fetch_import_source strict fs st o sid url) as [st1|st1 errs sm] eqn:Efis.
+    - inversion E; subst. destruct (fis_fail _ _ _ _ _ _ _ Efis) as (Hl & _ & Hn & _).
+      repeat split; eauto using cons_same_lib, mono_same_lib; [discriminate|].
+      intros _ HF. inversion HF; subst. congruence.
+    - rewrite (fis_errs_nil _ _ _ _ _ _ _ Efis) in E. cbn [existsb] in E.
+      destruct (fis_ok_cons _ _ _ _ _ _ _ _ _ Hc Efis) as (Hc1 & Hm1 & Hfm & Hget & _ & _).
+      assert (Hh1 : hist_ok st1 hist) by (eapply hist_ok_mono; eauto).
+      assert (Ho1 : owner_ok st1 o) by (eapply owner_ok_mono; eauto).
+      rewrite (check_cycle_cycs fs st1 m0 hist (fetch_epoch o url) (mk_key url) sm Hc1 Hh1 eq_refl Hget) in E.
+      destruct (cycs fs m0 hist (fetch_epoch o url)) eqn:Ecy.
+      { inversion E; subst. repeat split; auto; [discriminate|].
+        intros _ HF. inversion HF; subst. congruence. }
+      destruct (find_units (m_units sm) ref) as [su|] eqn:Efu.
+      2:{ inversion E; subst. repeat split; auto; [discriminate|].
+          intros _ HF. inversion HF; subst. congruence. }
+      set (o' := Some (mk_key url)) in *. set (hist' := hist ++ [fetch_epoch o url]) in *.
+      assert (Hinv1 : sinv hist' o' st1).
+      { repeat split; auto.
+        - intros e He. apply in_app_or in He. destruct He as [He|[<-|[]]]; [apply Hh1, He | exact Ho1].
+        - exists sm. exact Hget. }
+      destruct (fetch_units f strict fs m0 st1 o' hist' su) as [[b2 st2]| |] eqn:E2; try discriminate.
+      destruct (IH _ _ _ _ _ _ Hinv1 E2) as (Hc2 & Hm2 & Ht2 & Hf2).
+      destruct b2.
+      2:{ inversion E; subst. repeat split; eauto using mono_trans; [discriminate|].
+          intros _ HF. inversion HF; subst. assert (sm0 = sm) by congruence. subst sm0.
+          assert (su0 = su) by congruence. subst su0. apply (Hf2 eq_refl). assumption. }
+      assert (Hinv2 : sinv hist' o' st2) by (eapply sinv_mono; eauto).
+      set (Q := fun r => is_std r = false ->
+                         exists cu, find_units (m_units sm) r = Some cu /\ FU fs m0 o' hist' cu).
+      assert (Hall : sinv hist' o' st' /\ mono st2 st' /\ (b = true -> forall a, In a (refs_of su) -> Q a) /\
+                     (b = false -> exists a, In a (refs_of su) /\ ~ Q a)).
+      { replace (match su with ULocal _ refs => refs | UImp _ _ _ _ => [] end) with (refs_of su) in E
+          by (destruct su; reflexivity).
+        eapply (all_ok_spec (sinv hist' o') Q); [|exact Hinv2|exact E].
+        clear E. intros r x b' x' _ Hx Es. cbv beta in Es. unfold Q. destruct (is_std r) eqn:Estd.
+        - inversion Es; subst. repeat split; auto using mono_refl; try apply Hx; discriminate.
+        - destruct (find_units (m_units sm) r) as [cu|] eqn:Ecu.
+          + destruct (IH _ _ _ _ _ _ Hx Es) as (Hcx & Hmx & Htx & Hfx).
+            split; [eapply sinv_mono; eauto|]. split; [exact Hmx|]. split.
+            * intros Hb _. exists cu. split; [reflexivity|auto].
+            * intros Hb Hq. destruct (Hq eq_refl) as (cu' & Ecu' & HF'). inversion Ecu'; subst. apply (Hfx Hb HF').
+          + inversion Es; subst. split; [exact Hx|]. split; [apply mono_refl|]. split; [discriminate|].
+            intros _ Hq. destruct (Hq eq_refl) as (cu' & Ecu' & _). discriminate. }
+      destruct Hall as (Hinv' & Hm' & Ht' & Hf').
+      destruct Hinv' as (Hc' & _).
+      repeat split; auto.
+      + eapply mono_trans; [exact Hm1|]. eapply mono_trans; eauto.
+      + intros Hb. econstructor; eauto.
+        intros r Hr Hs. apply (Ht' Hb r Hr Hs).
+      + intros Hb HF. inversion HF; subst. assert (sm0 = sm) by congruence. subst sm0.
+        assert (su0 = su) by congruence. subst su0.
+        destruct (Hf' Hb) as (r & Hr & Hq). apply Hq. intros Hs.
+        match goal with H : forall r, In r (refs_of su) -> _ |- _ => apply H; [exact Hr|exact Hs] end.
+  Qed.
+End Spec.
